@@ -47,3 +47,12 @@ Theorem C05_lookup :
   forall (T : list mrow) k v, NoDup (map fst T) -> (lookup k T = Some v <-> In (k, v) T).
 Proof. exact lookup_spec. Qed.
 Print Assumptions C05_lookup.
+
+(* the outcome does not depend on n_jobs: for every n_jobs / cpu count the model returns the
+   unchunked, order-preserving result (uses the partition theorem about the GENERATED split_table) *)
+From SSJ Require Import MatcherChunks.
+Theorem C05_njobs :
+  forall sim t op am ws L R njobs cpus cand, Z.of_nat (List.length cand) < 2^31 ->
+  apply_matcher_model sim t op am ws L R njobs cpus cand = Some (matcher_split sim t op am ws L R cand).
+Proof. exact apply_matcher_njobs_b. Qed.
+Print Assumptions C05_njobs.
